@@ -198,12 +198,12 @@ func (t *transport) handle() {
 		case b := <-responses:
 			req, ok := outstanding[b.Tag]
 			if !ok {
-				// BUG(stevvooe): The exact handling of an unknown tag is
-				// unclear at this point. These may not necessarily fatal to
-				// the session, since they could be messages that the client no
-				// longer cares for. When we figure this out, replace this
-				// panic with something more sensible.
-				panic(fmt.Sprintf("unknown tag received: %v", b))
+				// A reply whose tag is not outstanding (never issued, or
+				// already answered) is not fatal to the session: it may be
+				// a message the client no longer cares for. A misbehaving
+				// server must not be able to crash the client, so drop it.
+				log.Printf("p9p: dropping message with unknown tag: %v", b)
+				continue
 			}
 
 			// BUG(stevvooe): Must detect duplicate tag and ensure that we are
